@@ -4,6 +4,11 @@ NOTE = ('Exact real arithmetic instead of floating point; numba compilation trus
         '(guarded by canaries, hypothesis-satisfiability checks and concrete cross-checks on every run); dependency contracts of '
         'numpy/itertools/scipy listed in the evidence file are assumed.')
 CLAIMED = {
+    'C01': dict(ref='5 (C01)', tech=TECH, note=NOTE + ' Assumed contract K-SCIPY for the SciPy Krylov solvers (returns (x, info); info==0 iff its own convergence test passed; no promise about callback arguments). The meaning of the residual token rests on C02.',
+                text='Proof with ghost version counters / residual tokens over all paths of _terminate, residual, the fine-grid loop of multigrid, krylov and solve: '
+                     'exit status 0 iff CONVERGED; on success the reported error is the residual of the very field handed back (returned or caller-supplied) and below tol; '
+                     'zero source zeroes that field; PEC zeroing of a supplied field covers exactly the twelve boundary faces before any use; dtype check; return forms. '
+                     'Plus bounded real solves with an independently assembled operator.'),
     'C02': dict(ref='5 (C02)', tech=TECH, note=NOTE,
                 text='Proof, for every grid shape / stencil position / array content, that core.amat_x equals curl^T M_f curl + M_e on every '
                      'interior edge, that PEC rows are inert, frame and bounds; symmetry and curl-curl(grad)=0 on the code\'s own expression; '
